@@ -295,13 +295,19 @@ def run_check(modname, tier, seed):
     timeout_ms = int(os.environ.get('VERIF_SOLVER_TIMEOUT_MS', 10000))
     levels = [dict(lv) for lv in mod.LEVELS[tier]]
     if tier == 'thorough':
-        # the budgets in the modules are weights: the thorough tier of one property gets a total wall budget
+        # thorough = every quick level (unchanged budgets) followed by the deeper levels.  The budgets of the
+        # deeper levels are weights: together they get what is left of a total wall budget per check
         # (default 900 s, VERIF_THOROUGH_TOTAL overrides); levels that finish early leave their share unused
+        quick = [dict(lv) for lv in mod.LEVELS['quick']]
+        qnames = {lv['name'] for lv in quick}
+        deep = [lv for lv in levels if lv['name'] not in qnames]
         total_budget = float(os.environ.get('VERIF_THOROUGH_TOTAL', 900))
-        wsum = sum(lv.get('budget_s') or 0 for lv in levels) or 1.0
-        for lv in levels:
+        left = max(120.0, total_budget - 0.6 * sum(lv.get('budget_s') or 0 for lv in quick))
+        wsum = sum(lv.get('budget_s') or 0 for lv in deep) or 1.0
+        for lv in deep:
             if lv.get('budget_s'):
-                lv['budget_s'] = round(lv['budget_s'] * total_budget / wsum, 1)
+                lv['budget_s'] = round(lv['budget_s'] * left / wsum, 1)
+        levels = quick + deep
     known = load_known(pid)
     cov = FuncCov()
 
